@@ -32,7 +32,7 @@ class Gen:
     def point(self, t=None, untimed_ok=False):
         r = self.r
         tags = {k: r.choice(TAG_VALS) for k in r.sample(TAG_KEYS[:3], r.choice([0, 1, 1, 2, 3]))}
-        if r.random() < 0.05:
+        if r.random() < 0.15:
             tags["bad"] = "1"
         enc = (self.profile.get("storage_kwargs") or {}).get("encoding")
         if enc and r.random() < 0.5:
@@ -191,7 +191,8 @@ class Gen:
             else:
                 u["fields"] = ("call", r.choice([0, 2, 4, 6, 6] + ([1, 3, 5] if allow_raise else [])))
         if r.random() < 0.2:
-            u["unset_tags"] = r.sample(TAG_KEYS[:3], r.choice([1, 2]))
+            # ("bad" is a key whose name CONTAINS the keys "a" and "b": unsetting it - given as one string - must leave them alone)
+            u["unset_tags"] = r.sample(TAG_KEYS, r.choice([1, 1, 2]))
             u["unset_as_str"] = r.random() < 0.5
         if r.random() < 0.2:
             u["unset_fields"] = r.sample(FIELD_KEYS + ["zz"], r.choice([1, 2]))
@@ -336,7 +337,7 @@ class Gen:
         r = self.r
         obs = [("index_valid",), ("iter",)]
         k = r.choice(["ooo_batch", "carriers", "bad_batch", "stale_handle", "torn_update", "handle_times", "linebreaks", "zones",
-                      "remove_first", "ooo_then_remove", "nested_not", "reset_then_time", "getter_memo", "handle_sorted", "odd_strings", "shared_maps", "hash_twins", "same_count", "redate", "fold_twins", "big_ties", "handle_unset", "same_row_twice"])
+                      "remove_first", "ooo_then_remove", "nested_not", "reset_then_time", "nan_fields", "epoch", "sparse_write", "sparse_write", "future_untimed", "getter_memo", "handle_sorted", "odd_strings", "shared_maps", "hash_twins", "same_count", "redate", "fold_twins", "big_ties", "handle_unset", "same_row_twice"])
         pref = self.profile.get("scenario_pref")
         if pref and r.random() < 0.5:
             k = r.choice(pref)
@@ -652,6 +653,54 @@ class Gen:
             if r.random() < 0.5:
                 ops += [("remove", fv(">=", n - 1), None), ("len",), ("handle", "m2", ("get_field_keys",))]
             obs = [("index_valid",)]
+        elif k == "nan_fields":
+            # NaN is a float like any other to the validators: stored under a field key it is unordered and unequal to everything, itself included;
+            # whatever the index sorts or bisects on must not be upset by it
+            pts = self.points_batch(r.choice([5, 6, 8]), in_order=True)
+            vals = [float("nan"), 1, -2, float("nan"), 0.5, float("inf"), 3, float("-inf")]
+            for i, p in enumerate(pts):
+                p["fields"]["v"] = vals[i % len(vals)]
+                p["meas"] = "m1"
+            ops += [("insert", pts, None, "multiple")] + obs
+            fv = lambda c, x: ("S", "fields", [("k", "v")], ("cmp", c, ("n", x)))
+            for c in ("<", "<=", ">", ">=", "==", "!="):
+                x = r.choice([0, 1, 0.5, -2, float("inf")])
+                ops.append(r.choice([("count", fv(c, x), None), ("search", fv(c, x), None, False), ("select", ["fields.v"], fv(c, x), None)]))
+            ops += [("count", fv("==", float("nan")), None), ("count", fv("!=", float("nan")), None), ("count", fv("<", float("nan")), None),
+                    ("count", ("not", fv(">", 0)), None), ("get_field_values", "v", None), ("remove", fv(">=", 1), None)] + obs + [("count", fv("<", 1), None)]
+        elif k == "epoch":
+            # the newest stored instant is EXACTLY 1970-01-01T00:00:00Z (POSIX timestamp 0.0), then earlier points arrive: zero is a time like any other
+            ops += [("insert", [self.point(-3 * SEC), self.point(-1 * SEC), self.point(0)], None, "multiple")] + obs
+            ops += [("insert", [self.point(-2 * SEC)], None), ("index_valid",), ("insert", [self.point(-40 * SEC)], None), ("index_valid",)]
+            tq = lambda c, x: ("S", "time", [], ("cmp", c, ("t", x)))
+            ops += [("count", tq(">=", 0), None), ("count", tq("==", 0), None), ("count", tq("<", 0), None), ("search", tq("<", -1 * SEC), None, True),
+                    ("get_timestamps", None), ("remove", tq("<", -2 * SEC - 500000), None)] + obs + [("count", tq("<=", 0), None), ("insert", [self.point(5 * SEC)], None), ("index_valid",),
+                    ("count", tq(">", -1), None)]
+        elif k == "sparse_write":
+            # a dozen or more points; a removal / an update that selects a FEW of them, early and late ones (positions below and above 8, in an order a
+            # small set of ints does not iterate in): everything between must stay
+            n = r.choice([10, 12, 13, 17, 20])
+            pts = self.points_batch(n, in_order=True)
+            for i, p in enumerate(pts):
+                p["tags"]["pos"] = str(i)
+                p["fields"]["pos"] = i
+            lo, hi = r.choice([1, 2, 3, 5]), r.choice([8, 9, n - 2, n - 1])
+            picks = [lo, hi] + ([r.choice([16, 10, 11][: max(1, n - 10)]) % n] if r.random() < 0.4 else [])
+            q = None
+            for j in picks:
+                a = ("S", "tags", [("k", "pos")], ("cmp", "==", ("s", str(j)))) if r.random() < 0.5 else ("S", "fields", [("k", "pos")], ("cmp", "==", ("n", j)))
+                q = a if q is None else ("or", q, a)
+            ops += [("insert", pts, None, "multiple")] + obs
+            ops += [r.choice([("remove", q, None), ("update", q, {"tags": ("static", {"hit": "1"})}, None), ("remove", q, r.choice(MEAS))])] + obs
+            ops += [("count", ("S", "tags", [("k", "hit")], ("exists",)), None), ("len",), ("count", q, None)]
+        elif k == "future_untimed":
+            # a point dated a fraction of a second in the FUTURE (a forecast), then a point without a time: it receives the time of its insertion
+            p1, p2, p3 = self.point(), self.point(), self.point()
+            p1["time"], p1["rel_now"] = None, r.choice([0.4, 0.7, 30.0, 86400.0])
+            p2["time"] = None
+            p3["time"] = None
+            ops += [("insert", [self.point()], None), ("insert", [p1], None), ("index_valid",), ("insert", [p2], None), ("index_valid",), ("iter",),
+                    ("insert", [p3], r.choice([None, "m1"])), ("get_timestamps", None)]
         elif k == "shared_maps":
             # a batch of points built from ONE tags mapping and ONE fields mapping (the harness hands equal mappings of a batch over as one
             # object): updates of a subset, of all, unsets, and an update that fails part-way must treat every point as having its own
@@ -739,6 +788,9 @@ class Gen:
             c = r.random()
             if c < self.profile.get("p_write", 0.45):
                 ops.append(self.write_op(csv, allow_raise))
+                if r.random() < 0.3:
+                    # the length, or a read through a handle, asked FIRST after the write - before any other read has touched storage
+                    ops.append(r.choice([("len",), ("len",), ("handle", r.choice(MEAS), ("len",)), ("handle", r.choice(MEAS), ("iter",)), ("handle", r.choice(MEAS), ("all", False))]))
                 # the file first: reading through the database seeks, which flushes what the handle still buffers
                 ops += self.file_obs() + [("index_valid",), ("iter",)]
             elif c < self.profile.get("p_plain", 0.9):
